@@ -6,6 +6,7 @@ FUNCS = ['DigitalRFMirrorHandler.mirror_to_dest', 'DigitalRFMirror.__init__ (han
 TITLES = {
     '_mirror_one': 'copy / move / link of one file under 1..3 (duplicated, late) events, optionally after a late event for a vanished file, with arbitrary pre-existing destination and stale tmp file (possibly a hard link of the source): destination ends with the source content, final name written only by rename from tmp., an intact copy exists in source or destination at every moment, vanished source changes nothing',
     '_mirror_wiring': 'handler set per method: metadata and properties copied (linked) by the first handler, RF files moved by a separate handler only in move mode, the count-1 metadata ringbuffer only in move mode and dispatched after the copying handler',
+    '_mirror_start': 'start(): property files always listed per the include flags, data / metadata files of the window unless ignore_existing; every listed path dispatched as a creation event to every handler in handler order without time matching',
     '_mirror_witness': 'reachability: a staged rename is reachable',
 }
 REPLAY = '''
@@ -90,6 +91,41 @@ sys.exit(1 if bad else 0)
 '''
 
 
+REPLAY_START = '''
+from vlib import build
+import os, tempfile, shutil, sys, glob
+import numpy as np
+drf = build.load_pkg()
+from digital_rf import mirror as MIR
+kw = %r
+method = ['copy', 'move', 'link'][kw.get('method', 0)]
+top = tempfile.mkdtemp(); src = top + '/s'; dst = top + '/d'; os.makedirs(src + '/ch/metadata'); os.makedirs(dst)
+w = drf.DigitalRFWriter(src + '/ch', 'i2', 3600, 1000, 10**10, 10, 1, 'u', is_complex=False)
+w.rf_write(np.arange(30, dtype='i2')); w.close()
+mw = drf.DigitalMetadataWriter(src + '/ch/metadata', 3600, 1, 10, 1, 'md')
+for k in range(2): mw.write(10**10 + 10 * k, {'v': k})
+rel = lambda pat: sorted(os.path.relpath(f, src) for f in glob.glob(src + pat))
+rf0, md0 = rel('/ch/*/rf@*.h5'), rel('/ch/metadata/*/md@*.h5')
+class NoObs:
+    def __init__(self, *a, **k): pass
+    def schedule(self, *a, **k): pass
+    def start(self): pass
+MIR.watchdog_drf.DirWatcher = NoObs
+inc_drf, inc_dmd, ign = kw.get('include_drf', True), kw.get('include_dmd', True), kw.get('ignore_existing', False)
+m = MIR.DigitalRFMirror(src, dst, method=method, ignore_existing=ign, include_drf=inc_drf, include_dmd=inc_dmd)
+if not kw.get('has_src', True): shutil.rmtree(src)
+m.start()
+got = sorted(os.path.relpath(os.path.join(d_, f), dst) for d_, _, fs in os.walk(dst) for f in fs)
+want = []
+if kw.get('has_src', True):
+    want += (['ch/drf_properties.h5'] if inc_drf else []) + (['ch/metadata/dmd_properties.h5'] if inc_dmd else [])
+    if not ign: want += (rf0 if inc_drf else []) + (md0 if inc_dmd else [])
+print('at destination', got, 'expected', sorted(want))
+shutil.rmtree(top)
+sys.exit(1 if got != sorted(want) else 0)
+'''
+
+
 def main(tier):
     rep = common.Report('C17', tier, 'model_checking', functions=FUNCS)
     st = smt.Stats()
@@ -97,5 +133,5 @@ def main(tier):
                '(both intermediate states observable)', 'event selection (kinds, window) is the C15 filter; deletion of old metadata files is the C16 ringbuffer')
     rep.outside_claim('watchdog threads and real inotify delivery', 'more than 3 events per file', 'crash of the mirror process between staging and rename (the stale tmp file is then handled by the next event)')
     res = chx.run_module('mirror', names=list(TITLES), per_condition_timeout=180 if tier == 'quick' else 900)
-    chx.report(rep, res, TITLES, replays={'_mirror_one': lambda kw: REPLAY % (kw,), '_mirror_wiring': lambda kw: REPLAY_WIRING % (kw,)}, sigs={'_mirror_one': 'C17.mirror_one', '_mirror_wiring': 'C17.wiring'})
+    chx.report(rep, res, TITLES, replays={'_mirror_one': lambda kw: REPLAY % (kw,), '_mirror_wiring': lambda kw: REPLAY_WIRING % (kw,), '_mirror_start': lambda kw: REPLAY_START % (kw,)}, sigs={'_mirror_one': 'C17.mirror_one', '_mirror_wiring': 'C17.wiring'})
     return rep.finish()
